@@ -334,12 +334,15 @@ structure Kinds where
   inst : Nat → List Nat
   all : List Nat
   noneKind : Nat
+  ctxKind : Nat := 0        -- the class `expr_context`
 
 inductive Pat where
   | wild                                                   -- `...`
   | node (kind : Nat) (kids : List Pat)                    -- an AST / leaf `MAST` pattern, one pattern per field
   | type (k : Nat)                                         -- a class used as pattern (`_match_type`), leaf or not
+  | ctxInst                                                -- a `Load()` / `Store()` / `Del()` instance (match option ctx=False)
   | types (ks : List Nat)                                  -- `MTYPES((..))` without fields
+  | typesF (ks : List Nat) (k : Nat) (kids : List Pat)     -- `MTYPES((..), **fields)` with fields that only class `k` has
   | m (p : Pat) (tag : Option Name) (st : List (Name × Nat))
   | mnot (p : Pat) (tag : Option Name) (st : List (Name × Nat))
   | mor (ps : List (Option Name × Pat))
@@ -375,7 +378,12 @@ def matchNode (K : Kinds) : Pat → TEnv → Tree → Option TEnv
   | .wild, _, _ => some []
   | .node k ps, ctx, t => if k == t.kind then matchFields K ps ctx t.kids else none
   | .type k, _, t => if (K.inst k).contains t.kind then some [] else none
+  | .ctxInst, _, t => if (K.inst K.ctxKind).contains t.kind then some [] else none   -- `_match_node_expr_context`
   | .types ks, _, t => if ks.any (fun k => (K.inst k).contains t.kind) then some [] else none
+  | .typesF ks k ps, ctx, t =>
+    if ks.any (fun k => (K.inst k).contains t.kind) then
+      if k == t.kind then matchFields K ps ctx t.kids else none     -- a field the target class does not have: no match
+    else none
   | .m p tag st, ctx, t =>
     match matchNode K p ctx t with
     | none => none
@@ -477,7 +485,9 @@ def leafAsts (K : Kinds) : Pat → Option (List Nat)
   | .wild => some K.all                                     -- `_leaf_asts_all`
   | .node k _ => some (K.leafOf k)                          -- `_leaf_asts_default`
   | .type k => some (K.leafOf k)                            -- `_leaf_asts_type`
+  | .ctxInst => some (K.leafOf K.ctxKind)                   -- `_leaf_asts_default`: `AST2ASTSLEAF[expr_context]`
   | .types ks => some (leafTypes K ks [])                   -- `MTYPES._leaf_asts`
+  | .typesF ks _ _ => some (leafTypes K ks [])              -- (the fields are ignored)
   | .m p _ _ => leafAsts K p                                -- `M_Pattern_One._leaf_asts`
   | .mnot p _ _ =>                                          -- `MNOT._leaf_asts`
     if !typeOnly p then some K.all                          -- inner leaf set is only an upper bound: no complement
